@@ -23,6 +23,9 @@ def writers(p: Program):
         consts = [n.value for n in walk_no_nested(f.node) if isinstance(n, ast.Constant) and isinstance(n.value, (str, bytes))]
         txt = " ".join(c.decode("utf-8", "replace") if isinstance(c, bytes) else c for c in consts)
         opens = any("builtin:open" in tg for _, tg in p.calls[fq])
+        if not opens and ("<hashlist" in txt or "<ascmhldirectory" in txt) and f.module.name.endswith("_xml_parser"):
+            # the file may be opened by a small helper of the writer (`_open_temp_file(path)`)
+            opens = any("builtin:open" in tg for q in p.reachable([fq]) if q != fq and p.funcs[q].module.name.endswith(("_xml_parser", ".utils", ".xml_io")) for _, tg in p.calls[q])
         if opens and "<hashlist" in txt and f.module.name.endswith("hashlist_xml_parser"):
             mw = f
         if opens and "<ascmhldirectory" in txt and f.module.name.endswith("chain_xml_parser"):
